@@ -6,7 +6,9 @@ from sa.shapes import consumption, has_unknown, flat, Shaper
 from sa.cfg import cfg_of
 from sa.callgraph import bind_args
 from sa.spec import avro_wire as spec
-from .common import ifexp_alternatives, analysis, tokens
+import re
+
+from .common import ifexp_alternatives, analysis, tokens, true_facts
 
 PROP = "C05"
 TECHNIQUE = "constant folding of the header constants; wire-shape extraction of dump / write_block / block codecs / block generators against the spec's container grammar; per-path summaries (reaching definitions with expression propagation) for codec payloads and is_avro; CFG ordering of offset/size bookkeeping"
@@ -34,15 +36,22 @@ def generators(a):
         init = ci.methods.get("__init__")
         if init is None:
             raise AnalysisError(f"{cname}.__init__ not found")
-        found = None
+        cands = []
+        cfg = None
         for n in walk_local(init.node):
             if isinstance(n, ast.Assign) and any(norm(t) == "self._elems" for t in n.targets) and isinstance(n.value, ast.Call):
                 f = a.p.resolve_func(init.mod, n.value.func) if isinstance(n.value.func, (ast.Name, ast.Attribute)) else None
                 if f is not None and f.is_generator():
-                    found = (f, n.value, init)
-        if found is None:
-            raise AnalysisError(f"generator assigned to {cname}._elems not found")
-        out[role] = found
+                    # the arm for a JSON decoder (no container framing) is not the container-file generator
+                    if cfg is None:
+                        cfg = cfg_of(init)
+                    facts = true_facts(cfg, cfg.node_of(n))
+                    if any(re.fullmatch(r"isinstance\(.*, \w*JSON\w*\)", t) for t in facts):
+                        continue
+                    cands.append((f, n.value, init))
+        if len(cands) != 1:
+            raise AnalysisError(f"expected one container-file generator assigned to {cname}._elems, found {len(cands)}")
+        out[role] = cands[0]
     return out
 
 
